@@ -17,8 +17,14 @@ def SPEC(tier):
         for c in cfgs:
             c.flags.append('-DOPS_WITH_MEDIUMP')
     else:
-        cfgs += [simd_cfg('sse2-gcc', ['-msse2'], 'g++'), simd_cfg('sse41-clang', ['-msse4.1'], 'clang++'), simd_cfg('avx2-gcc', ['-mavx2'], 'g++'),
+        cfgs += [simd_cfg('sse2-gcc', ['-msse2'], 'g++'), simd_cfg('sse41-clang', ['-msse4.1'], 'clang++'), simd_cfg('avx-clang', ['-mavx'], 'clang++'), simd_cfg('avx2-gcc', ['-mavx2'], 'g++'),
                  simd_cfg('avx2fma-clang', ['-mavx2', '-mfma', '-DGLM_FORCE_FMA'], 'clang++')]
+    if tier != 'thorough':
+        # the mediump qualifier has SIMD specialisations of its own (e.g. outerProduct<4,4,float,aligned_mediump>): the quick tier carries
+        # it in the pure and the AVX2 library (operations are matched by name, so the other libraries simply lack those instances)
+        for c in cfgs:
+            if c.name in ('pure', 'avx2-gcc'):
+                c.flags.append('-DOPS_WITH_MEDIUMP')
     st = driver_stage('C03', cfgs, 'class', 3000, 100000, require_simd=True)
     # coverage-guided campaign: pure vs AVX2 in one process, the fuzzer steers the generators' choices
     fz = driver_stage('C03', [cfgs[0], simd_cfg('avx2-gcc', ['-mavx2'] + (['-DOPS_WITH_MEDIUMP'] if tier == 'thorough' else []), 'g++')], 'class', 0, 0, require_simd=True, name='fuzz')
